@@ -1,0 +1,35 @@
+//go:build verif
+
+package acmelib
+
+import (
+	"github.com/squadracorsepolito/acmelib/dbc"
+	acmelibv1 "github.com/squadracorsepolito/acmelib/proto/gen/go/acmelib/v1"
+)
+
+// VerifExportAST returns the DBC document the exporter builds for the bus,
+// before it is written as text.
+func VerifExportAST(bus *Bus) *dbc.File {
+	return newExporter().exportBus(bus)
+}
+
+// VerifImportAST imports an already parsed DBC document.
+func VerifImportAST(dbcFile *dbc.File) (*Bus, error) {
+	return newImporter().importFile(dbcFile)
+}
+
+// VerifSaveProto returns the protobuf tree the saver builds for the network.
+func VerifSaveProto(net *Network) *acmelibv1.Network {
+	return newSaver().saveNetwork(net)
+}
+
+// VerifLoadProto loads a network from a protobuf tree.
+func VerifLoadProto(pNet *acmelibv1.Network) (*Network, error) {
+	return newLoader().loadNetwork(pNet)
+}
+
+// VerifCalcSizeFromValue exposes calcSizeFromValue.
+func VerifCalcSizeFromValue(val int) int { return calcSizeFromValue(val) }
+
+// VerifClearSpaces exposes clearSpaces.
+func VerifClearSpaces(str string) string { return clearSpaces(str) }
